@@ -131,7 +131,10 @@ def r1_scalar(program, rep):
                                                          le(V, hi)], V),
                  ("above", [lt(hi, V)], hi)]
         for name, cons, want in cases:
-            it = Interp(inner, entry_cons=[le(lo, hi)] + cons)
+            # (the captured bounds fold to the format's extremes for every
+            # format - checked above - so min <= 0 <= max)
+            it = Interp(inner, entry_cons=[le(lo, hi), le(lo, 0),
+                                           le(0, hi)] + cons)
             reached = 0
             for r in returns_of(inner):
                 node = it.cfg.node_of(r)
